@@ -127,6 +127,9 @@ func c14Run(env *core.Env, idx int) *core.CaseResult {
 		if len(t.Rows) == 0 {
 			return 1
 		}
+		if r.Intn(5) == 0 {
+			return t.Rows[0][0].I // the first row of the heap has code paths of its own (iterator start)
+		}
 		return t.Rows[r.Intn(len(t.Rows))][0].I
 	}
 	genStmt := func() stmt {
